@@ -8,8 +8,12 @@ THEOREMS = [
      "for ALL byte strings ds, n: nameMatch ds n = ds,n non-empty and (ds == n or some white-space separated piece d of ds satisfies the per-descriptor test) - the loop's index arithmetic loses no descriptor"),
     ("UscxmlVerif.Properties.C12.nameMatch_eq_spec", "proved",
      "for all well-formed descriptor lists ds and event names n: nameMatch ds n = Recommendation 3.12.1 (token-wise prefix, '*' wildcard, trailing '.*' / '.' ignored, case sensitive)"),
+    ("UscxmlVerif.Properties.C12.trie_answers_prefix_queries", "proved",
+     "the transpilers' event-name trie (Trie.cpp, separator '.'): for EVERY list of words and every prefix, getWordsWithPrefix on the trie built by addWord returns exactly - for every word whose non-empty tokens extend the prefix's - the first word added with those tokens"),
+    ("UscxmlVerif.Properties.C12.static_resolution_is_spec", "proved",
+     "for all well-formed, pairwise distinct event names ws and every well-formed descriptor d other than '*': the names the Promela and VHDL back-ends list for d (getWordsWithPrefix of d without its trailing '.*' / '.') are exactly the names of ws that d matches by Recommendation 3.12.1"),
 ]
-LEAN_FILES = ["UscxmlVerif.Properties.C12"]
+LEAN_FILES = ["UscxmlVerif.Properties.C12", "UscxmlVerif.Proofs.TrieSpec", "UscxmlVerif.Model.Trie"]
 ALPHA = b"ab.* "
 
 
@@ -219,17 +223,53 @@ def run(ctx):
     broken_all += br
     ctx.sample({"suite": "random", "request": preqs[0], "means": "nameMatch(%r, %r)" % pairs[0]})
     st3 = suite_static(ctx, 150 if quick else 4000)
+    st4 = suite_trie(ctx, 1500 if quick else 40000)
     if broken_all and not ctx.violations:
         who, ds, n, v, m = broken_all[0]
         ctx.violation("correspondence", "namematch", ["P\t%s\t%s" % (hexs(ds), hexs(n))], found_input=False,
                       detail="correspondence namematch broken: %s returns %s, model %s on (%r, %r); %d such inputs, none of them well formed, so 3.12.1 is not contradicted" % (who, v, m, ds, n, len(broken_all)))
-    ctx.coverage["evaluations"] = st["inputs"] + st2["inputs"] + st3["pairs"]
+    ctx.coverage["evaluations"] = st["inputs"] + st2["inputs"] + st3["pairs"] + st4["queries"]
     ctx.coverage["distinct_nontrivial"] = st["wf"] + st2["wf"]
     ctx.coverage["rule"] = "exhaustive: every descriptor list over 'ab.* ' up to length %d x every name up to length %d; random: structured lists with tabs/newlines/upper case/UTF-8 + 10%% arbitrary bytes. non-trivial = descriptor list and name both well formed (spec applies)" % (maxds, maxn)
     ctx.coverage["exhaustive"] = True
     ctx.assumptions += ["C-locale isspace/tolower", "the static resolution of the Promela and VHDL back-ends is read out of the emitted text (suite static-resolution: one state, 2-5 transitions, names over the tokens a/b/ab)"]
 
 
+def suite_trie(ctx, n):
+    """the compiled Trie against Model.Trie: words over 'abc.' (stray, leading, trailing and double dots, duplicates, the empty word) and prefixes"""
+    import random
+    rnd = random.Random(ctx.seed * 7919 + 12)
+    def w(maxlen):
+        return bytes(rnd.choice(b"abc..") for _ in range(rnd.randint(0, maxlen)))
+    enc = lambda b: hexs(b) if b else "-"
+    lines, meta = [], []
+    for _ in range(n):
+        words = [w(7) for _ in range(rnd.randint(1, 9))]
+        if rnd.random() < 0.3: words.append(rnd.choice(words))
+        prefixes = [b""] + [w(4) for _ in range(rnd.randint(1, 4))] + [rnd.choice(words)[:rnd.randint(0, 4)]]
+        lines.append("%s\t%s" % (",".join(enc(x) for x in words), ",".join(enc(x) for x in prefixes))); meta.append((words, prefixes))
+    parts = list(chunks(lines, max(1, len(lines) // 8 + 1)))
+    def work(part):
+        rc, h, err = ctx.harness_lines("trie", part, timeout=900)
+        if rc != 0 or len(h) != len(part): raise BrokenTie("harness", "uvharness trie rc=%s %d/%d %s" % (rc, len(h), len(part), err[-200:]))
+        return h, ctx.driver_lines("trie", part, timeout=900)
+    with ThreadPoolExecutor(8) as ex: res = list(ex.map(work, parts))
+    H = [x for h, _ in res for x in h]; M = [x for _, m in res for x in m]
+    st = dict(inputs=len(lines), agree=0, queries=0, nonempty_answers=0, violations=0)
+    for l, (words, prefixes), h, m in zip(lines, meta, H, M):
+        st["queries"] += len(prefixes); st["nonempty_answers"] += sum(1 for x in h.split(" ")[0].split("|") if x)
+        if h == m: st["agree"] += 1; continue
+        st["violations"] += 1
+        if len(ctx.violations) < 3:
+            # well-formed names (non-empty tokens) that are pairwise distinct: the model's answer is 3.12.1's (static_resolution_is_spec)
+            wf = all(x and all(t for t in x.split(b".")) for x in words) and len(set(words)) == len(words)
+            ctx.violation("trie-%d" % len(ctx.violations), "trie", [l], found_input=wf,
+                          detail="Trie (separator '.') and Model.Trie differ: words %r prefixes %r\ncode : %s\nmodel: %s%s" % (words, prefixes, h, m,
+                          "\n(the words are well-formed distinct event names: the model's answer is the Recommendation's, static_resolution_is_spec)" if wf else ""))
+    ctx.add_suite("trie", **st)
+    return st
+
+
 def replay(ctx, path):
     import uvlib
-    return uvlib.generic_replay(ctx, path, [("P\t", "namematch", "namematch", None), ("E\t", "namematch", "namematch", None), ("promela\t", "emit", None, None), ("vhdl\t", "emit", None, None)])
+    return uvlib.generic_replay(ctx, path, [("P\t", "namematch", "namematch", None), ("E\t", "namematch", "namematch", None), ("promela\t", "emit", None, None), ("vhdl\t", "emit", None, None), (None, "trie", "trie", None)])
